@@ -316,6 +316,9 @@ func classOf(t reflect.Type, serializer string) (class, wrap string) {
 	if c, ok := customBase[t]; ok {
 		return c, "plain"
 	}
+	if isSelf(t) {
+		return "self", "plain"
+	}
 	if t.Kind() == reflect.Ptr {
 		c, _ := classOf(t.Elem(), "")
 		return c, "ptr"
@@ -400,6 +403,8 @@ func normEmpty(v reflect.Value) interface{} {
 // canonGo canonicalises the Go value fv (of the leaf's type).
 func canonGo(l *leaf, fv reflect.Value) string {
 	switch l.class {
+	case "self":
+		return selfCanon(fv)
 	case "json":
 		return "j:" + normJSON(fv.Interface())
 	case "gob":
@@ -499,6 +504,8 @@ func canonRaw(l *leaf, cell interface{}) string {
 	bad := fmt.Sprintf("?%T:%v", cell, cell)
 	if cell == nil {
 		switch l.class {
+		case "self":
+			return selfCanon(reflect.Zero(l.typ))
 		case "json":
 			return "j:null"
 		case "gob":
@@ -608,6 +615,12 @@ func canonRaw(l *leaf, cell interface{}) string {
 			m := map[string]string{}
 			if json.Unmarshal([]byte(str), &m) == nil {
 				return "pr:" + normJSON(m)
+			}
+		}
+	case "self":
+		if isStr {
+			if c, ok := selfFromRaw(l, str); ok {
+				return c
 			}
 		}
 	case "json":
@@ -891,6 +904,9 @@ func genValue(r *core.Rand, l *leaf, mode int) reflect.Value {
 	}
 	if l.class == "json" || l.class == "gob" {
 		return genBase(r, l, l.typ, mode == 2)
+	}
+	if l.class == "self" {
+		return genSelf(r, l.typ)
 	}
 	switch l.wrap {
 	case "deleted":
